@@ -5,6 +5,7 @@ import (
 	"encoding/json"
 	"github.com/gotid/god/lib/lang"
 	"gopkg.in/yaml.v2"
+	"strings"
 )
 
 func YamlToJson(data []byte) ([]byte, error) {
@@ -29,10 +30,15 @@ func toStringKeyMap(v any) any {
 		return convertSlice(v)
 	case map[any]any:
 		return convertKeyToString(v)
+	case nil:
+		// YAML 的 null 与 JSON 的 null 一致，不能变成空字符串
+		return nil
 	case bool, string:
 		return v
-	case int, uint, int8, uint8, int16, uint16, int32, uint32, int64, uint64, float32, float64:
+	case int, uint, int8, uint8, int16, uint16, int32, uint32, int64, uint64:
 		return convertNumberToJsonNumber(v)
+	case float32, float64:
+		return convertFloatToJsonNumber(v)
 	default:
 		return lang.Repr(v)
 	}
@@ -40,6 +46,16 @@ func toStringKeyMap(v any) any {
 
 func convertNumberToJsonNumber(v any) json.Number {
 	return json.Number(lang.Repr(v))
+}
+
+// YAML 中写成浮点数的值（如 1.0）在 JSON 中仍须是浮点数：保留小数标记，否则整数字段会接受 YAML 的 1.0 而拒绝 JSON 的 1.0。
+func convertFloatToJsonNumber(v any) json.Number {
+	s := lang.Repr(v)
+	if !strings.ContainsAny(s, ".eEIN") {
+		s += ".0"
+	}
+
+	return json.Number(s)
 }
 
 func convertKeyToString(m map[any]any) map[string]any {
